@@ -3,7 +3,8 @@ from .common import SCALAR, A_COMMON
 TARGETS = [("rel", "%s_agreement_only" % c) for c in ("DDM", "EDDM", "STEPD")] + \
           [("fn", SCALAR[c] + ".update") for c in SCALAR] + \
           [("fn", "menelaus.change_detection.adwin:ADWIN.update"), ("fn", "menelaus.concept_drift.adwin_accuracy:ADWINAccuracy.update"),
-           ("fn", "menelaus.data_drift.kdq_tree:KdqTreeStreaming.update"),
+           ("fn", "menelaus.data_drift.kdq_tree:KdqTreeStreaming.update"), ("fn", "menelaus.data_drift.kdq_tree:KdqTreeBatch.update"),
+           ("fn", "menelaus.data_drift.nndvi:NNDVI.update"),
            ("fn", "menelaus.concept_drift.lfr:LinearFourRates.update@tnr")]
 LEVEL = "proof"
 ASSUMPTIONS = A_COMMON + [
